@@ -6,6 +6,7 @@ Line-protocol driver for C07 (timelines).  One operation per line, one canonical
   sim <unit|~> <start> <stop> <dur> <dt>                       the sim's own timeline (asis), plus the spec variant's npts
   mod <unit|~> <start> <stop> <dur> <dt> <munit> <mstart> <mstop> <mdt>     a module's timeline in that sim
   grid <start> <stop> <dt>                                      int((stop-start)/dt): asis (software float), spec (exact), Lean Float
+  consts                                                        the regenerated constants the model was built with
   ord <date> | cal <n> | addm <date> <k> | y2d <year> | d2y <date> | rd <x>      calendar / float primitives
 
 module unit `_` = not given; numbers: `p/q` or `p` (the decimal the harness wrote); dates: `Dyyyy-mm-dd`; absent: `none`; the empty unit string: `~`.
@@ -85,6 +86,9 @@ def stepLine (_ : Unit) (line : String) : Unit × String :=
       | some y => if y < 1 then "bad-op" else s!"{(yearToDate .asis y).iso} {(yearToDate .spec y).iso}"
       | none => "bad-op"
   | ["d2y", d] => match parseDate? d with | some d => showRat (dateToYearNum d).f | none => "bad-op"
+  | ["consts"] =>
+      let us := ",".intercalate (Gen.timeUnits.map (fun r => s!"{r.1}:{showRat r.2}"))
+      s!"consts units={us} dur={showRat Gen.defaultDur} unit={Gen.defaultUnit} year={Gen.defaultStartYear} date={Gen.defaultStartDate.1}-{Gen.defaultStartDate.2.1}-{Gen.defaultStartDate.2.2} decimals={Gen.roundDecimals} dt={showRat Gen.simDefaultDt}"
   | ["rd", x] => match parseRat? x with | some x => showRat (F64.rd x) | none => "bad-op"
   | _ => "bad-op")
 
